@@ -201,6 +201,65 @@ def assume_keys(path, upto=None):
     return [aff_key(e.cond) for e in evs if e.kind == 'assume']
 
 
+def literal(cond):
+    """An assumed condition as (atom, polarity): affine comparisons become
+    the atoms ('ge', L) [L >= 0] / ('gt', L) [L > 0] over a sign-canonical
+    linear form L, so that `a > b` on one path and `b >= a` on another are
+    the same atom with opposite polarity; (in)equalities with a constant and
+    truth tests are atoms by their text."""
+    pol = True
+    c = cond
+    while c[0] == 'not':
+        pol = not pol
+        c = c[1]
+    k = aff_key(c)
+    if k is not None and k[0] in ('>', '>='):
+        return key_literal(k, pol)
+    if c[0] == 'ne':
+        return (('eq', show0(c[1]), show0(c[2])), not pol)
+    if c[0] == 'eq':
+        return (('eq', show0(c[1]), show0(c[2])), pol)
+    if c[0] == 'truth':
+        return (('truth', show0(c[1])), pol)
+    return (('other', show0(c)), pol)
+
+
+def key_literal(k, pol=True):
+    """The literal of an affine key (op, coefficients, constant)."""
+    items = sorted(k[1])
+    const = k[2]
+    flip = bool(items) and items[0][1] < 0
+    if flip:
+        items = [(v, -co) for v, co in items]
+        const = -const
+    L = (tuple(items), const)
+    if not flip:
+        return (('ge' if k[0] == '>=' else 'gt', L), pol)
+    # -L >= 0  <=>  not (L > 0) ;  -L > 0  <=>  not (L >= 0)
+    return (('gt' if k[0] == '>=' else 'ge', L), not pol)
+
+
+def decision_mismatches(cases, reference, limit=10):
+    """cases: [(literals {atom: polarity}, outcome)], one per path.
+    reference: function from an assignment {atom: bool} to the expected
+    outcome.  Every assignment of the atoms that occur is tried; where a
+    path is consistent with it, its outcome must be the reference's.
+    -> list of (assignment, path outcome, expected)."""
+    import itertools
+    atoms = sorted({a for lits, _ in cases for a in lits}, key=repr)
+    if len(atoms) > limit:
+        return [('too many atoms', len(atoms), None)]
+    bad = []
+    for vals in itertools.product((False, True), repeat=len(atoms)):
+        asg = dict(zip(atoms, vals))
+        for lits, out in cases:
+            if all(asg[a] == p for a, p in lits.items()):
+                exp = reference(asg)
+                if exp is not None and out != exp:
+                    bad.append((asg, out, exp))
+    return bad
+
+
 def store_base_attr(ev):
     """For a 'store'/'del' event: the attribute name of the subscripted
     container as written in the source (self.X[k] = v -> 'X'), else None."""
@@ -265,25 +324,40 @@ def include(ctx, eng, prop, select, why):
     name) pairs, or a predicate over the obligation."""
     import importlib
     from ..core import Ctx, AnalysisError
-    guard = getattr(eng, '_including', set())
-    if prop in guard:
+    # A sibling's clauses are computed once per engine and nesting depth and
+    # then shared: at depth 1 the sibling runs with its own includes (depth
+    # 2), at depth 2 with none.  What a check sees therefore does not depend
+    # on who asks, and the cost is at most two runs per property.
+    depth = getattr(eng, '_inc_depth', 0)
+    if depth >= 2 or prop == ctx.prop:
         return 0
-    eng._including = guard | {prop, ctx.prop}
-    try:
-        sub = Ctx(prop, ctx.tier, ctx.seed, eng.m)
+    cache = eng.__dict__.setdefault('_inc_cache', {})
+    key = (prop, depth + 1)
+    if key not in cache:
+        eng._inc_depth = depth + 1
         try:
-            importlib.import_module('h2verif.rules.%s' % prop.lower()).run(
-                sub, eng)
-        except AnalysisError as exc:
-            # the sibling lost an anchor: its clauses cannot be taken over,
-            # this property's own clauses are decided all the same (the
-            # sibling's own check reports the analysis error)
-            ctx.note('clauses shared with %s were not decided on this tree '
-                     '(%s)' % (prop, exc))
-            ctx.count('shared_clause_sets_skipped', 1)
-            return 0
-    finally:
-        eng._including = guard
+            sub = Ctx(prop, ctx.tier, ctx.seed, eng.m)
+            try:
+                importlib.import_module(
+                    'h2verif.rules.%s' % prop.lower()).run(sub, eng)
+                cache[key] = list(sub.obligations)
+            except AnalysisError as exc:
+                cache[key] = exc
+        finally:
+            eng._inc_depth = depth
+    got = cache[key]
+    if isinstance(got, AnalysisError):
+        # the sibling lost an anchor: its clauses cannot be taken over, this
+        # property's own clauses are decided all the same (the sibling's own
+        # check reports the analysis error)
+        ctx.note('clauses shared with %s were not decided on this tree '
+                 '(%s)' % (prop, got))
+        ctx.count('shared_clause_sets_skipped', 1)
+        return 0
+
+    class _Sub:
+        obligations = got
+    sub = _Sub
     if callable(select):
         pred = select
     else:
@@ -293,11 +367,16 @@ def include(ctx, eng, prop, select, why):
             fn = o.where.split('.')[-1] if isinstance(o.where, str) else ''
             return o.rule in sel or (o.rule, fn) in sel
     n = 0
+    have = {(o.rule, o.where, o.desc) for o in ctx.obligations}
     for o in sub.obligations:
         if pred(o):
-            ctx.obligations.append(o)
             n += 1
+            if (o.rule, o.where, o.desc) not in have:
+                have.add((o.rule, o.where, o.desc))
+                ctx.obligations.append(o)
     if n == 0:
+        if depth > 0:
+            return 0    # clauses the sibling itself takes from elsewhere
         raise AnalysisError('no clause of %s matched the selection %r'
                             % (prop, select))
     ctx.rule('from %s, %d clauses: %s' % (prop, n, why))
